@@ -497,6 +497,8 @@ func runC11(c *Ctx) {
 		}
 	}
 	_ = strings.Join
+	// signed requests against real servers (reply MACs chained onto the request MAC, BADTIME replies)
+	c11Server(c, r)
 }
 
 func strOrDash(s string) string {
